@@ -59,5 +59,6 @@ def specLib : Lib where
   rsplit := SeqSpec.rsplit
   rsplitn := SeqSpec.rsplitn
   merge := SeqSpec.mergeE
+  joinE := SeqSpec.joinE
 
 end Noulith.SeqLib
